@@ -291,6 +291,22 @@ def C19():
     }
 
 
+def compile_ok():
+    from kit.compile_ok import CompileOk
+    return CompileOk()
+
+
+def C09():
+    return {
+        'level': 'exploration', 'parts': [compile_ok()], 'samples': [], 'routed_natives': (),
+        'assumptions': [
+            'bounded: programs are sampled -- the probe theories (quick) plus every theory under eqlog-test-eval/src (thorough); "every accepted program" is not decided',
+            'a theory the compiler rejects with a diagnostic is not an accepted program and is skipped (listed in the notes); a panic of the compiler is a failure',
+            'compiles = rustc accepts the emitted module as a library crate against a fresh eqlog-runtime; in component mode the compiler itself compiles the component libraries (its exit status is checked); linking module and components together is exercised by C19',
+        ],
+    }
+
+
 def compile_twice():
     from kit.compile_det import CompileTwice
     return CompileTwice()
@@ -420,9 +436,9 @@ def C18():
     }
 
 
-PROPERTIES = {'C19': C19, 'C13': C13, 'C20': C20, 'C01': C01, 'C03': C03, 'C04': C04, 'C05': C05, 'C06': C06, 'C07': C07, 'C14': C14, 'C08': C08, 'C16': C16, 'C18': C18, 'C11': C11}
+PROPERTIES = {'C09': C09, 'C19': C19, 'C13': C13, 'C20': C20, 'C01': C01, 'C03': C03, 'C04': C04, 'C05': C05, 'C06': C06, 'C07': C07, 'C14': C14, 'C08': C08, 'C16': C16, 'C18': C18, 'C11': C11}
 
-NATIVES = {'uf_0': lambda: uf_native(0), 'uf_1': lambda: uf_native(1), 'rt_wb': lambda: rt_native('wb'), 'rt_pt': lambda: rt_native('pt'), 'rt_ts': lambda: rt_native('ts'), 'sn': sn_native, 'sd': sd_native, 'gen': gen_native, 'emit_sn': emit_sn, 'gen_twice': GenTwice, 'compile_twice': compile_twice, 'gen_both_builds': GenBothBuilds}
+NATIVES = {'uf_0': lambda: uf_native(0), 'uf_1': lambda: uf_native(1), 'rt_wb': lambda: rt_native('wb'), 'rt_pt': lambda: rt_native('pt'), 'rt_ts': lambda: rt_native('ts'), 'sn': sn_native, 'sd': sd_native, 'gen': gen_native, 'emit_sn': emit_sn, 'gen_twice': GenTwice, 'compile_twice': compile_twice, 'gen_both_builds': GenBothBuilds, 'compile_ok': compile_ok}
 
 
 def replay(pid, path):
